@@ -21,7 +21,8 @@ TARGETS = ['valjean.eponine.browser:Browser.__init__', 'valjean.eponine.browser:
 BOUNDS = {
     'quick': {'items': '<= 3', 'metadata keys': "pool {'a','b'} (+ data key, + reserved 'index')",
               'values': 'arbitrary hashable (symbolic, equality only)', 'data_key': ["'results'", "'d'"],
-              'query': 'per key: absent or a symbolic value; include/exclude: any subsets of the pool + a key no item has',
+              'query': 'per key: absent or a symbolic value; include/exclude: any subsets of the pool + a key no item has + the data key',
+              'merge': 'right operand with 1 item, or item-less but carrying global variables',
               'chains': 'single operation (filter_by, select_by, merge, keys/available_values)',
               'long lists': '10 items, one key with two concrete values, every subset of matching items (order of the selection)'},
     'thorough': {'items': '<= 4 (3 for chains)', 'metadata keys': "pool {'a','b'} (+ data key, + reserved 'index')",
@@ -39,6 +40,7 @@ EXPLANATION = ('bounded symbolic execution (symrun + z3) of the real Browser/Ind
 
 POOL = ['a', 'b']          # rebound per job (module global, jobs run in separate processes)
 INCEXC = 'full'
+DATA_KEY = 'results'
 
 
 def _mk_items(ex, n, data_key, tag='i'):
@@ -60,13 +62,13 @@ def _query(ex, tag='q'):
     for k in POOL:
         if ex.flag(f'{tag}has{k}'):
             kw[k] = ex.key(f'{tag}{k}')
-    extra = POOL + ['zz']
+    extra = POOL + ['zz', DATA_KEY]          # a key no item has, and the data key (which every item has)
     if INCEXC == 'full':
         inc = tuple(k for k in extra if ex.flag(f'{tag}inc{k}'))
         exc = tuple(k for k in extra if ex.flag(f'{tag}exc{k}'))
     else:
-        incs = [(), (POOL[0],), (POOL[0], 'zz'), (POOL[-1],)]
-        excs = [(), (POOL[-1],), ('zz',)]
+        incs = [(), (POOL[0],), (POOL[0], 'zz'), (POOL[-1],), (DATA_KEY,)]
+        excs = [(), (POOL[-1],), ('zz',), (DATA_KEY,)]
         inc = incs[ex.choice(len(incs), f'{tag}inc')]
         exc = excs[ex.choice(len(excs), f'{tag}exc')]
     return kw, inc, exc
@@ -183,8 +185,8 @@ def make_harness(n, data_key, mode, n2=1, pool='ab', incexc='full', globs_on=Fal
         return make_long_harness(n, data_key)
 
     def harness(ex):
-        global POOL, INCEXC
-        POOL, INCEXC = list(pool), incexc
+        global POOL, INCEXC, DATA_KEY
+        POOL, INCEXC, DATA_KEY = list(pool), incexc, data_key
         from valjean.eponine.browser import Browser, NoItemBrowserError, TooManyItemsBrowserError
         items, datas = _mk_items(ex, n, data_key)
         globs = {'g': 1} if globs_on else None
@@ -235,7 +237,7 @@ def make_harness(n, data_key, mode, n2=1, pool='ab', incexc='full', globs_on=Fal
                          'select_by:returns-the-single-matching-item')
         elif mode == 'merge':
             items2, datas2 = _mk_items(ex, n2, data_key, tag='j')
-            globs2 = {'g': 2, 'h': 3} if (n + n2) % 2 else None
+            globs2 = {'g': 2, 'h': 3} if ((n + n2) % 2 or n2 == 0) else None      # an item-less browser still carries its globals
             br2 = Browser(items2, data_key=data_key, global_vars=globs2)
             sn2 = _snap_browser(br2)
             mg = br.merge(br2)
@@ -290,7 +292,7 @@ def jobs(tier):
                 (0, 'filter', 'ab', 'full'), (1, 'filter', 'ab', 'full'), (2, 'filter', 'ab', 'few'),
                 (3, 'filter', 'a', 'few'), (0, 'select', 'ab', 'few'), (2, 'select', 'ab', 'few'),
                 (3, 'select', 'a', 'few'), (1, 'merge', 'ab', 'few'), (2, 'merge', 'a', 'few'), (2, 'chain', 'a', 'few'),
-                (10, 'long', 'a', 'few')]
+                (10, 'long', 'a', 'few'), (0, 'merge0', 'a', 'few'), (1, 'merge0', 'a', 'few')]
     else:
         plan = [(0, 'keys', 'ab', 'full'), (2, 'keys', 'ab', 'full'), (3, 'keys', 'ab', 'full'), (4, 'keys', 'a', 'full'),
                 (0, 'filter', 'ab', 'full'), (1, 'filter', 'ab', 'full'), (2, 'filter', 'ab', 'full'),
@@ -298,13 +300,17 @@ def jobs(tier):
                 (0, 'select', 'ab', 'full'), (2, 'select', 'ab', 'full'), (3, 'select', 'ab', 'few'), (4, 'select', 'a', 'few'),
                 (0, 'merge', 'ab', 'few'), (1, 'merge', 'ab', 'few'), (2, 'merge', 'ab', 'few'), (2, 'merge', 'a', 'few'),
                 (3, 'merge', 'a', 'few'),
-                (2, 'chain', 'ab', 'few'), (3, 'chain', 'a', 'few'), (10, 'long', 'a', 'few'), (13, 'long', 'a', 'few')]
-    for i, (n, mode, pool, ie) in enumerate(plan):
+                (2, 'chain', 'ab', 'few'), (3, 'chain', 'a', 'few'), (10, 'long', 'a', 'few'), (13, 'long', 'a', 'few'),
+                (0, 'merge0', 'a', 'few'), (1, 'merge0', 'ab', 'few'), (2, 'merge0', 'a', 'few')]
+    for i, (n, mode0, pool, ie) in enumerate(plan):
         for dk in ('results', 'd'):
+            mode = mode0
             n2 = 2 if (mode == 'merge' and n == 2 and tier == 'thorough' and pool == 'a') else 1
+            if mode0 == 'merge0':
+                mode, n2 = 'merge', 0
             if mode == 'long' and dk == 'd' and n > 10:
                 continue
-            out.append((f'{mode}-n{n}-{pool}-{ie}-{dk}', _job,
+            out.append((f'{mode}{"0" if n2 == 0 else ""}-n{n}-{pool}-{ie}-{dk}', _job,
                         dict(n=n, data_key=dk, mode=mode, n2=n2, pool=pool, incexc=ie, globs_on=bool((i + (dk == 'd')) % 2),
                              timeout_ms=t)))
     return out
